@@ -394,8 +394,8 @@ impl Property for C09 {
     }
     fn runs(&self, tier: Tier) -> u64 {
         match tier {
-            Tier::Quick => 60_000,
-            Tier::Thorough => 2_000_000,
+            Tier::Quick => 100_000,
+            Tier::Thorough => 3_000_000,
         }
     }
 
@@ -567,6 +567,21 @@ impl Property for C09 {
                 LineResult::Err(e) => {
                     errors += 1;
                     ev.bump(&format!("errors.{}", e.kind));
+                    // Distinct error messages reached (digits normalised, cut to 60 characters).
+                    let mut t = String::new();
+                    let mut last_digit = false;
+                    for c in e.title.chars().take(60) {
+                        if c.is_ascii_digit() {
+                            if !last_digit {
+                                t.push('N');
+                            }
+                            last_digit = true;
+                        } else {
+                            last_digit = false;
+                            t.push(c);
+                        }
+                    }
+                    ev.states.insert(format!("{}|{}|stack={}", e.kind, t, e.stack.len().min(4)));
                     if ev.violation.is_none() {
                         if let Some((loc, msg)) = &e.render_panic {
                             ev.violation = Some(Violation {
